@@ -40,7 +40,8 @@ class Nest:
         self.lets = {}          # var -> (init expr, body)
         self.loopvars = {}      # var -> (range end expr, loop node, body)
         self.tuple_src = {}     # var -> (source var, index)
-        self.mut_counters = {}  # var -> init expr for `let mut v = <int literal>`
+        self.mut_counters = {}  # var -> init expr for `let mut v: usize = <init>`
+        self.decl_loops = {}    # counter var -> loops enclosing its declaration
         self.projs = {}         # var -> (init expr, tuple index) for `let (a, b) = <if / match producing tuples>`
         self.opaque = set()     # variables bound by patterns this model does not interpret (never turned into atoms)
         self.assigned = set()   # variables that are re-assigned somewhere (other than counters)
@@ -51,13 +52,14 @@ class Nest:
                     self._pat(p["pat"], None, b)
             self._scan(facts.root(b), b, [])
 
-    def _pat(self, pat, init, b):
+    def _pat(self, pat, init, b, loops=()):
         k = pat.get("k")
         if k == "Binding":
             if init is not None:
                 self.lets[pat["v"]] = (init, b)
-                if "Mut" in str(pat.get("mode", "")).split(",")[-1] and isinstance(lit_value(init), int):
+                if "Mut" in str(pat.get("mode", "")).split(",")[-1] and pat.get("ty") == "usize":
                     self.mut_counters[pat["v"]] = init
+                    self.decl_loops[pat["v"]] = list(loops)
         elif k == "Leaf":
             src = F.var_of(init) if init is not None and strip(init).get("k") in ("VarRef", "UpvarRef") else None
             for s in pat["subs"]:
@@ -99,7 +101,7 @@ class Nest:
         if n.get("k") == "Block":
             for s in n["stmts"]:
                 if s["s"] == "let":
-                    self._pat(s["pat"], s.get("init"), b)
+                    self._pat(s["pat"], s.get("init"), b, loops)
                     if s.get("init") is not None:
                         self._scan(s["init"], b, loops)
                 else:
@@ -196,6 +198,30 @@ class IdxEval:
         raise Abstain("index expression `%s` is not a polynomial" % show(e)[:60])
 
     def match_arm(self, e):
+        sc = strip(e["scrutinee"])
+        if isinstance(sc, dict) and sc.get("k") == "Tuple":
+            vals = [self.flag(x) for x in sc["fields"]]
+            if any(v is None for v in vals):
+                return None
+            for a in e["arms"]:
+                p = a["pat"]
+                if a.get("guard") is not None:
+                    return None
+                if p.get("k") in ("Wild", "Binding"):
+                    return a["body"]
+                if p.get("k") != "Leaf":
+                    return None
+                ok = True
+                for s_ in p["subs"]:
+                    q = s_["pat"]
+                    if q.get("k") == "Constant" and q.get("value") in ("true", "false"):
+                        if (q["value"] == "true") != vals[s_["idx"]]:
+                            ok = False
+                    elif q.get("k") not in ("Wild", "Binding"):
+                        return None
+                if ok:
+                    return a["body"]
+            return None
         cv = self.flag(e["scrutinee"])
         if cv is None:
             return None
@@ -263,14 +289,24 @@ class IdxEval:
                         loops = n["_loops"]
         if not loops or any(l is None for l in loops):
             raise Abstain("counter %s is not incremented inside a nest of plain range loops" % self.name_of(v))
+        decl = self.nest.decl_loops.get(v, [])
+        if loops[:len(decl)] != decl or len(loops) == len(decl):
+            raise Abstain("counter %s is not incremented in loops nested inside its declaration" % self.name_of(v))
+        inner = loops[len(decl):]
         rank = Frac(0)
-        for i, lv in enumerate(loops):
+        for i, lv in enumerate(inner):
             term = self.atom("i:" + lv)
-            for later in loops[i + 1:]:
+            for later in inner[i + 1:]:
                 term = term * self.extent(later)
             rank = rank + term
         self.counter_loops = loops
-        return rank + self.poly(self.nest.mut_counters[v])
+        # the initial value is evaluated as an ordinary expression (it may mention the enclosing loops' variables)
+        saved = self.nest.mut_counters.pop(v)
+        try:
+            init = self.poly(saved)
+        finally:
+            self.nest.mut_counters[v] = saved
+        return rank + init
 
     def extent(self, lv):
         return self.poly(self.nest.loopvars[lv][0])
@@ -494,6 +530,11 @@ def _unroll_kernel(facts, c):
                 if body is b:
                     continue
                 got = ev.poly(idx["i"])
+                cps = [p for p in facts.params(body) if p.get("pat")]
+                outv = cps[0]["pat"].get("v") if cps and cps[0]["pat"].get("k") == "Binding" else None
+                if kind == "load" and _base(idx)[0] == outv:
+                    _eq(c, "unroll:%s:destination#reread" % name, F.loc(body, node), got, want_dst, "unrolled position re-read")
+                    continue
                 if kind == "load":
                     done.add("src")
                     _eq(c, "unroll:%s:source" % name, F.loc(body, node), got, want_src, "image element read for window (r, c), depth k, filter position (m, n)")
@@ -773,4 +814,261 @@ def r38_matmul_shapes(facts):
             else:
                 c.bad(inst, F.loc(b, found[2]), "the compatibility assertion compares %s.dimensions[len - %d] with %s.dimensions[len - %d]: not the inner dimensions of op(A) and op(B)"
                       % (found[0][1], found[0][2], found[1][1], found[1][2]))
+    return c
+
+
+# ====================================================================================== roll is the adjoint of unroll
+
+def _rename(fr, mapping):
+    """substitute atoms of a polynomial fraction (denominator 1) by other polynomial fractions"""
+    if fr.d != Poly.const(1):
+        raise Abstain("quotient in an index")
+    out = Frac(0)
+    for m, c in fr.n.t.items():
+        term = Frac(c)
+        for a, e in m:
+            from .symalg import lf_const
+            ec = lf_const(e)
+            if ec is None or ec.denominator != 1 or ec < 0:
+                raise Abstain("non-polynomial exponent")
+            base = mapping.get(a, Frac(Poly.atom(a)))
+            for _ in range(int(ec)):
+                term = term * base
+        out = out + term
+    return out
+
+
+def _max_plus_one(fr, ranges):
+    """max value + 1 of a polynomial with non-negative coefficients over variables 0 <= v < N_v (ranges: atom -> extent Frac)"""
+    if fr.d != Poly.const(1):
+        return None
+    out = Frac(1)
+    for m, c in fr.n.t.items():
+        if c < 0:
+            return None
+        term = Frac(c)
+        bounded = False
+        for a, e in m:
+            from .symalg import lf_const
+            ec = lf_const(e)
+            if ec != 1 and a in ranges:
+                return None
+            if a in ranges and not bounded:
+                term = term * (ranges[a] - Frac(1))
+                bounded = True
+            elif a in ranges:
+                return None
+            else:
+                term = term * Frac(Poly.atom(a))
+        if not bounded:
+            return None
+        out = out + term
+    return out
+
+
+def _divmod(p, d, ranges):
+    """(quotient, remainder) of polynomial p by polynomial d when p = q*d + r with 0 <= r < d provable from the ranges"""
+    if p.d != Poly.const(1) or d.d != Poly.const(1):
+        raise Abstain("division of quotients")
+    ds = d.n.single()
+    q = Frac(0)
+    r = Frac(0)
+    for m, c in p.n.t.items():
+        term = Frac(Poly({m: c}))
+        # is the term a multiple of d?  try exact monomial division
+        placed = False
+        if ds is not None:
+            dc, dm = ds
+            md = dict(m)
+            ok = True
+            for a, e in dm:
+                from .symalg import lf_const, lf_add, lf_scale
+                have = md.get(a)
+                if have is None:
+                    ok = False
+                    break
+                rest = lf_add(have, lf_scale(e, -1))
+                rc = lf_const(rest)
+                if rc is None or rc < 0:
+                    ok = False
+                    break
+                if rest:
+                    md[a] = rest
+                else:
+                    del md[a]
+            if ok and (c / dc).denominator == 1:
+                q = q + Frac(Poly({tuple(sorted(md.items())): c / dc}))
+                placed = True
+        if not placed:
+            r = r + term
+    if r.is_zero():
+        return q, r
+    mp = _max_plus_one(r, ranges)
+    if mp is None or not (mp.equals(d)):
+        raise Abstain("cannot show that the remainder `%r` is below the divisor `%r`" % (r, d))
+    return q, r
+
+
+class IdxEvalDM(IdxEval):
+    """IdxEval with loop variables substituted by polynomials and `/`, `%` simplified under the variables' ranges"""
+
+    def __init__(self, nest, flags, subst, ranges):
+        super().__init__(nest, flags)
+        self.subst = subst      # loop var -> Frac
+        self.ranges = ranges    # atom -> extent Frac
+
+    def poly(self, e, depth=0):
+        e0 = strip(e)
+        if isinstance(e0, dict) and e0.get("k") in ("VarRef", "UpvarRef") and e0["v"] in self.subst:
+            return self.subst[e0["v"]]
+        if isinstance(e0, dict) and e0.get("k") == "Binary" and e0.get("op") in ("Div", "Rem"):
+            a, b = self.poly(e0["l"], depth + 1), self.poly(e0["r"], depth + 1)
+            q, r = _divmod(a, b, self.ranges)
+            return q if e0["op"] == "Div" else r
+        return super().poly(e, depth)
+
+
+def _transpose_backward(facts, c):
+    """the derivative closure of the output transposition applies the inverse permutation: it writes where the forward
+    loop read and reads where the forward loop wrote"""
+    fns = [b for b in facts.fns() if b.get("impl_self") == ARRAY and b.get("impl_trait_def") is None
+           and (b.get("inputs") or []) == ["&" + ARRAY, "(usize, usize)"] and b.get("output") == ARRAY]
+    for b in fns:
+        name = b.get("name")
+        where0 = "%s:%d" % (F.rel(b["file"]), b["sp"][0])
+        nest = Nest(facts, b)
+        ev = IdxEval(nest, {})
+
+        def pair(body_filter):
+            lv = [v for v, (end, _, body) in nest.loopvars.items() if body_filter(body)]
+            outer = [v for v in lv if not nest.parent_loop.get(v)]
+            inner = [v for v in lv if nest.parent_loop.get(v)]
+            return (outer[0], inner[0]) if len(outer) == 1 and len(inner) == 1 else None
+        fwd = pair(lambda body: body is b)
+        closures = [nb for nb in nest.bodies if nb is not b and F.is_backward_closure(nb)]
+        if fwd is None or len(closures) != 1:
+            c.unk("transpose-backward:%s" % name, where0, "forward loop nest or derivative closure not recognised")
+            continue
+        cb = closures[0]
+        bwd = pair(lambda body: body is cb)
+        if bwd is None:
+            c.unk("transpose-backward:%s" % name, F.loc(cb, facts.root(cb)), "the derivative closure is not a nest of two `0..n` loops")
+            continue
+        try:
+            if not (ev.extent(fwd[0]).equals(ev.extent(bwd[0])) and ev.extent(fwd[1]).equals(ev.extent(bwd[1]))):
+                c.unk("transpose-backward:%s" % name, F.loc(cb, facts.root(cb)), "the derivative's loops do not run over the same extents as the forward loops")
+                continue
+            ren = {"i:" + bwd[0]: Frac(Poly.atom("i:" + fwd[0])), "i:" + bwd[1]: Frac(Poly.atom("i:" + fwd[1]))}
+            f_load = f_store = b_load = b_store = None
+            for kind, idx, node, body in _accesses(nest):
+                if body is b:
+                    if kind == "load":
+                        f_load = ev.poly(idx["i"])
+                    else:
+                        f_store = ev.poly(idx["i"])
+                elif body is cb:
+                    if kind == "load":
+                        b_load = (_rename(ev.poly(idx["i"]), ren), node)
+                    else:
+                        b_store = (_rename(ev.poly(idx["i"]), ren), node, kind)
+            if None in (f_load, f_store, b_load, b_store):
+                c.unk("transpose-backward:%s" % name, F.loc(cb, facts.root(cb)), "loads / stores of the forward loop or of the derivative closure not recognised")
+                continue
+            _eq(c, "transpose-backward:%s:destination" % name, F.loc(cb, b_store[1]), b_store[0], f_load, "position the delta element is written to (= the position the forward pass read)")
+            _eq(c, "transpose-backward:%s:source" % name, F.loc(cb, b_load[1]), b_load[0], f_store, "delta element read (= the position the forward pass wrote)")
+        except (Abstain, Unsupported) as ex:
+            c.unk("transpose-backward:%s" % name, where0, "outside the index algebra: %s" % ex)
+
+
+def r39_roll_adjoint_of_unroll(facts):
+    """ROLL-ADJOINT: the routine used as the derivative of im2col reads unrolled element (row r*cols+c, column (k*frows+m)*fcols+n) and adds it to image element [k, r*sr+m, c*sc+n] - the same index pairs as im2col, transposed (div / mod decoding simplified symbolically under the loop ranges)"""
+    c = Ctx("R39", facts, "roll_blocks (adjoint of im2col) uses exactly im2col's index pairs, transposed")
+    unrolls = [b for b in facts.fns() if b.get("impl_self") == ARRAY and b.get("impl_trait_def") is None
+               and (b.get("inputs") or []) == ["&" + ARRAY, "(usize, usize)", "(usize, usize)"]]
+    rolls = [b for b in facts.fns() if b.get("impl_self") == ARRAY and b.get("impl_trait_def") is None
+             and (b.get("inputs") or [])[:4] == ["&" + ARRAY, "(usize, usize, usize)", "(usize, usize)", "(usize, usize)"]
+             and any(nb is not b and F.is_sliced_closure(nb, facts) for nb in facts.nested(b))]
+    c.count("adjoint routines (unrolled, image triple, stride pair, filter pair, ..)", len(rolls))
+    if len(unrolls) != 1 or not rolls:
+        c.unk("roll:routines", "-", "expected one im2col routine and at least one adjoint routine with a sliced closure (found %d / %d)" % (len(unrolls), len(rolls)))
+        return c
+    _transpose_backward(facts, c)
+    for b in rolls:
+        name = b.get("name")
+        where0 = "%s:%d" % (F.rel(b["file"]), b["sp"][0])
+        nest = Nest(facts, b)
+        ps = [p for p in facts.params(b) if p.get("pat")]
+        pv = [p["pat"].get("v") for p in ps]
+        comp = {}
+        for v, (src, idx) in nest.tuple_src.items():
+            if src in pv[1:4]:
+                comp[(pv.index(src), idx)] = v
+        need = [(1, 0), (1, 1), (1, 2), (2, 0), (2, 1), (3, 0), (3, 1)]
+        if any(k not in comp for k in need):
+            c.unk("roll:%s:params" % name, where0, "the dimension tuples are not destructured in a recognised form")
+            continue
+        # which pair is the stride: the one dividing in the window count
+        ev0 = IdxEval(nest, {})
+        count_var = None
+        stride_pair = None
+        for v, (init, body) in nest.lets.items():
+            ca = _count_axis(nest, ev0, {"k": "VarRef", "v": v})
+            if ca and ca[1] == 1:
+                o = _origin_tuple(nest, ca[2])
+                if o and o[0] in pv[2:4]:
+                    count_var, stride_pair = v, pv.index(o[0])
+        if count_var is None:
+            c.unk("roll:%s:count" % name, where0, "the column window count `(cols - fcols) / sc + 1` is not computed in a recognised form")
+            continue
+        filter_pair = 5 - stride_pair
+        A = lambda n_: Frac(Poly.atom(n_))
+        role = {"n:" + comp[(1, 0)]: A("K"), "n:" + comp[(1, 1)]: A("R"), "n:" + comp[(1, 2)]: A("C"),
+                "n:" + comp[(stride_pair, 0)]: A("sr"), "n:" + comp[(stride_pair, 1)]: A("sc"),
+                "n:" + comp[(filter_pair, 0)]: A("Fr"), "n:" + comp[(filter_pair, 1)]: A("Fc"), "n:" + count_var: A("Cc")}
+        # the two loops of the sliced closure: i over windows, j over one unrolled row
+        loops = [(lv, info) for lv, info in nest.loopvars.items() if info[2] is not b]
+        outer = [lv for lv, _ in loops if not nest.parent_loop.get(lv)]
+        inner = [lv for lv, _ in loops if nest.parent_loop.get(lv)]
+        if len(outer) != 1 or len(inner) != 1:
+            c.unk("roll:%s:loops" % name, where0, "the closure is not a nest of two `0..n` loops (windows, positions in a window row)")
+            continue
+        try:
+            jext = _rename(ev0.extent(inner[0]), role)
+            if not jext.equals(A("Fr") * A("Fc") * A("K")):
+                c.unk("roll:%s:loops" % name, where0, "the inner loop does not run over frows * fcols * depth positions (%r)" % jext)
+                continue
+            r, cc, k, m, n_ = A("r"), A("c"), A("k"), A("m"), A("n")
+            subst = {outer[0]: r * A("Cc") + cc, inner[0]: (k * A("Fr") + m) * A("Fc") + n_}
+            ranges = {"c": A("Cc"), "k": A("K"), "m": A("Fr"), "n": A("Fc")}
+
+            class Ev(IdxEvalDM):
+                def poly(self, e, depth=0):
+                    return _rename(IdxEvalDM.poly(self, e, depth), role) if depth == 0 else IdxEvalDM.poly(self, e, depth)
+            ev = IdxEvalDM(nest, {}, subst, ranges)
+            # atoms must be in role space before division: wrap atom creation
+            orig_atom = ev.atom
+            ev.atom = lambda nm: role.get(nm, orig_atom(nm))
+            want_unrolled = (r * A("Cc") + cc) * (A("K") * A("Fr") * A("Fc")) + (k * A("Fr") + m) * A("Fc") + n_
+            want_image = k * A("R") * A("C") + (r * A("sr") + m) * A("C") + (cc * A("sc") + n_)
+            seen = set()
+            for kind, idx, node, body in _accesses(nest):
+                if body is b:
+                    continue
+                got = ev.poly(idx["i"])
+                cps = [p for p in facts.params(body) if p.get("pat")]
+                outv = cps[0]["pat"].get("v") if cps and cps[0]["pat"].get("k") == "Binding" else None
+                if kind == "load" and _base(idx)[0] == outv:
+                    # `out[i] = out[i] + ..`: reading the destination itself
+                    _eq(c, "roll:%s:destination#reread" % name, F.loc(body, node), got, want_image, "image element re-read for accumulation")
+                    continue
+                if kind == "load":
+                    seen.add("load")
+                    _eq(c, "roll:%s:source" % name, F.loc(body, node), got, want_unrolled, "unrolled element read for window (r, c), depth k, filter position (m, n)")
+                else:
+                    seen.add("store")
+                    _eq(c, "roll:%s:destination#%s" % (name, kind), F.loc(body, node), got, want_image, "image element [k, r*sr+m, c*sc+n] it is delivered to")
+            if seen != {"load", "store"}:
+                c.unk("roll:%s:coverage" % name, where0, "load / store of the adjoint closure not recognised (%s)" % sorted(seen))
+        except (Abstain, Unsupported) as ex:
+            c.unk("roll:%s" % name, where0, "outside the index algebra: %s" % ex)
     return c
